@@ -325,6 +325,12 @@ func (r *RolloutReconciler) handleRolloutPlanChanged(c *RolloutContext) error {
 }
 
 func (r *RolloutReconciler) handleNormalRolling(c *RolloutContext) error {
+	// FinalisingStep only has a meaning while a reset (continuous release) or the finalising is under way.
+	// A reset that was abandoned half-way (the third revision was withdrawn again) leaves its position
+	// there; the clean-up that follows this rollout must start from its own first task.
+	if subStatus := c.NewStatus.GetSubStatus(); subStatus != nil {
+		subStatus.FinalisingStep = ""
+	}
 	// check if canary is done
 	if c.NewStatus.GetSubStatus().CurrentStepState == v1beta1.CanaryStepStateCompleted {
 		klog.Infof("rollout(%s/%s) progressing rolling done", c.Rollout.Namespace, c.Rollout.Name)
